@@ -979,6 +979,29 @@ func (lr *LakeRun) CheckBranch(name string) {
 	}
 }
 
+// CanonTies sorts every maximal run of consecutive values with equal pool keys:
+// the pool order says nothing about values whose keys are equal (they come from
+// different objects and the merge may take them in either order), so two scans
+// are "the same result" when they agree up to the order inside such runs.
+func (lr *LakeRun) CanonTies(vals []string) []string {
+	out := append([]string(nil), vals...)
+	i := 0
+	for i < len(out) {
+		ki, ok := lr.keyOf(out[i])
+		j := i + 1
+		for ok && j < len(out) {
+			kj, okj := lr.keyOf(out[j])
+			if !okj || CmpK(ki, kj) != 0 {
+				break
+			}
+			j++
+		}
+		sort.Strings(out[i:j])
+		i = j
+	}
+	return out
+}
+
 func (lr *LakeRun) checkOrder(what string, got []string, sig string) {
 	for i := 1; i < len(got); i++ {
 		ka, oka := lr.keyOf(got[i-1])
@@ -1026,7 +1049,7 @@ func (lr *LakeRun) CheckCommits() {
 				}
 				continue
 			}
-			if strings.Join(got, "\n") != strings.Join(c.Seen, "\n") {
+			if strings.Join(lr.CanonTies(got), "\n") != strings.Join(lr.CanonTies(c.Seen), "\n") {
 				lr.fail(lr.Tag+":commit-changed", fmt.Sprintf("the data visible at commit %s changed after later operations (%d values before, %d now)", c.ID, len(c.Seen), len(got)), lr.replay(map[string]any{"before": c.Seen, "now": got}), strings.Join(c.Seen, " "), strings.Join(got, " "))
 			}
 		}
